@@ -414,14 +414,190 @@ theorem slow_offend {sys : Sys} {comp snap : List Nat} {s0 : St} (c : CompCtx sy
     rw [h4]; intro h; exact hne (List.append_eq_nil_iff.1 h).1
   · exact hne
 
+/-! ### termination: a potential that every dirty pass increases -/
+
+/-- total size of the component's sets, measured inside the elements the system mentions plus one
+point for "everything else" -/
+def pot (sys : Sys) (comp : List Nat) (x : St) : Nat :=
+  (comp.map fun v => mu (mlist sys) (x.get v)).sum
+
+theorem pot_le (sys : Sys) (comp : List Nat) (x : St) :
+    pot sys comp x ≤ comp.length * (mentioned sys + 1) := by
+  unfold pot
+  induction comp with
+  | nil => simp
+  | cons v comp ih =>
+    have := mu_le (mlist sys) (x.get v)
+    rw [mlist_length] at this
+    simp only [List.map_cons, List.sum_cons, List.length_cons]
+    rw [Nat.add_mul]
+    omega
+
+theorem sum_map_le (f g : Nat → Nat) (v : Nat) (h1 : ∀ u, u ≠ v → g u = f u) (h2 : f v ≤ g v) :
+    ∀ (l : List Nat), (l.map f).sum ≤ (l.map g).sum
+  | [] => by simp
+  | a :: l => by
+    have := sum_map_le f g v h1 h2 l
+    simp only [List.map_cons, List.sum_cons]
+    by_cases ha : a = v
+    · subst ha; omega
+    · rw [h1 a ha]; omega
+
+theorem sum_map_lt (f g : Nat → Nat) (v : Nat) (h1 : ∀ u, u ≠ v → g u = f u) (h2 : f v + 1 ≤ g v) :
+    ∀ (l : List Nat), v ∈ l → (l.map f).sum + 1 ≤ (l.map g).sum
+  | [], h => by cases h
+  | a :: l, h => by
+    simp only [List.map_cons, List.sum_cons]
+    by_cases ha : a = v
+    · subst ha
+      have := sum_map_le f g a h1 (by omega) l
+      omega
+    · have hv : v ∈ l := by
+        simp only [List.mem_cons] at h
+        rcases h with h | h
+        · exact absurd h.symm ha
+        · exact h
+      have := sum_map_lt f g v h1 h2 l hv
+      rw [h1 a ha]; omega
+
+theorem slowRes_tidy {sys : Sys} {x : St} (hT : ∀ w, Tidy sys (x.get w)) (v : Nat) :
+    Tidy sys (slowRes sys x v) := by
+  unfold slowRes
+  split
+  · exact foldl_pres (Tidy sys) _ (fun b w hb => hb.inter (hT w)) _ _
+      ⟨by trivial, by intro e he; cases he⟩
+  · exact foldl_pres (Tidy sys) _ (fun b w hb => hb.merge (hT w)) _ _ (hT v)
+  · exact hT v
+
+theorem slowRes_grows {sys : Sys} {comp : List Nat} {s0 x : St} {b : Asg} (I : SlowInv sys comp s0 x b)
+    {v : Nat} (hv : v ∈ comp) (hop : opOf sys v ≠ .compl) :
+    ∀ e, (x.get v).Mem e → (slowRes sys x v).Mem e := by
+  intro e he
+  cases hop' : opOf sys v with
+  | compl => exact absurd hop' hop
+  | union => exact ((slowRes_union I.sorted hop').2 e).2 (.inl he)
+  | inter => exact ((slowRes_inter I.sorted hop').2 e).2 (I.upI v hv hop' e he)
+
+theorem slowUpd_pot {sys : Sys} {comp : List Nat} {s0 x : St} {b : Asg} (I : SlowInv sys comp s0 x b)
+    (hB : Bounded sys x) (hlt : ∀ v ∈ comp, v < sys.length) {v : Nat} (hv : v ∈ comp)
+    (hop : opOf sys v ≠ .compl) (d : Bool) :
+    Bounded sys (slowUpd x d v (slowRes sys x v)).1 ∧
+    pot sys comp x ≤ pot sys comp (slowUpd x d v (slowRes sys x v)).1 ∧
+    ((slowUpd x d v (slowRes sys x v)).2 = true →
+      d = true ∨ pot sys comp x + 1 ≤ pot sys comp (slowUpd x d v (slowRes sys x v)).1) := by
+  have hvl : v < x.sets.length := by rw [I.len]; exact hlt v hv
+  have hget := slowUpd_get x d v (slowRes sys x v) hvl
+  have hT : ∀ w, Tidy sys (x.get w) := fun w => ⟨I.sorted w, hB w⟩
+  have hres := slowRes_tidy hT v
+  have hgrow := slowRes_grows I hv hop
+  have hne : ∀ u, u ≠ v → mu (mlist sys) ((slowUpd x d v (slowRes sys x v)).1.get u) = mu (mlist sys) (x.get u) := by
+    intro u hu; rw [hget u, if_neg hu]
+  have hvv : (slowUpd x d v (slowRes sys x v)).1.get v = slowRes sys x v := by rw [hget v, if_pos rfl]
+  refine ⟨?_, ?_, ?_⟩
+  · intro u
+    rw [hget u]
+    split
+    · exact hres.2
+    · exact hB u
+  · unfold pot
+    apply sum_map_le _ _ v hne
+    rw [hvv]
+    exact mu_mono _ hgrow
+  · intro hd
+    by_cases hdd : d = true
+    · exact .inl hdd
+    · right
+      have hneq : slowRes sys x v ≠ x.get v := by
+        intro he
+        unfold slowUpd at hd
+        rw [if_pos he] at hd
+        exact hdd hd
+      unfold pot
+      apply sum_map_lt _ _ v hne _ comp hv
+      rw [hvv]
+      apply Classical.byContradiction
+      intro hlt'
+      have hle : mu (mlist sys) (slowRes sys x v) ≤ mu (mlist sys) (x.get v) := by omega
+      exact hneq (eq_of_mu_le (mlist sys) (I.sorted v) hres.1 (hB v) hres.2 hgrow hle).symm
+
+theorem slow_pass_pot {sys : Sys} {comp snap : List Nat} {s0 : St} (c : CompCtx sys comp snap s0) {b : Asg}
+    (hb : Above sys comp s0 b) {q : Nat} (hq : q ∈ comp) (hqi : opOf sys q = .inter) :
+    ∀ (vs : List Nat), (∀ v ∈ vs, v ∈ comp) → ∀ (x : St) (d : Bool), SlowInv sys comp s0 x b → Bounded sys x →
+      Bounded sys (vs.foldl (slowNode sys snap) (x, d)).1 ∧
+      pot sys comp x ≤ pot sys comp (vs.foldl (slowNode sys snap) (x, d)).1 ∧
+      ((vs.foldl (slowNode sys snap) (x, d)).2 = true →
+        d = true ∨ pot sys comp x + 1 ≤ pot sys comp (vs.foldl (slowNode sys snap) (x, d)).1) := by
+  intro vs
+  induction vs with
+  | nil => intro _ x d _ hB; exact ⟨hB, Nat.le_refl _, fun h => .inl h⟩
+  | cons v vs ih =>
+    intro hvs x d I hB
+    have hv : v ∈ comp := hvs v (by simp)
+    have hvs' : ∀ u ∈ vs, u ∈ comp := fun u hu => hvs u (by simp [hu])
+    simp only [List.foldl_cons]
+    by_cases hop : opOf sys v = .compl
+    · obtain ⟨w, he, hw⟩ := slow_compl_offends c hq hqi hv hop
+      rw [slowNode_offender hop he hw]
+      exact ih hvs' { x with err := x.err ++ [v] } d (I.addErr v) hB
+    · have hnode : slowNode sys snap (x, d) v = slowUpd x d v (slowRes sys x v) := by
+        cases hop' : opOf sys v with
+        | compl => exact absurd hop' hop
+        | union => exact slowNode_union hop'
+        | inter => exact slowNode_inter hop'
+      rw [hnode]
+      obtain ⟨hB1, hp1, hs1⟩ := slowUpd_pot I hB c.lt hv hop d
+      have I' := I.update hb c.lt hv hop d
+      obtain ⟨hB2, hp2, hs2⟩ := ih hvs' (slowUpd x d v (slowRes sys x v)).1 (slowUpd x d v (slowRes sys x v)).2 I' hB1
+      have hp2' : pot sys comp (slowUpd x d v (slowRes sys x v)).1 ≤
+          pot sys comp (vs.foldl (slowNode sys snap) (slowUpd x d v (slowRes sys x v))).1 := hp2
+      have hs2' : (vs.foldl (slowNode sys snap) (slowUpd x d v (slowRes sys x v))).2 = true →
+          (slowUpd x d v (slowRes sys x v)).2 = true ∨ pot sys comp (slowUpd x d v (slowRes sys x v)).1 + 1 ≤
+            pot sys comp (vs.foldl (slowNode sys snap) (slowUpd x d v (slowRes sys x v))).1 := hs2
+      refine ⟨hB2, Nat.le_trans hp1 hp2', fun hr => ?_⟩
+      rcases hs2' hr with h | h
+      · rcases hs1 h with h' | h'
+        · exact .inl h'
+        · exact .inr (by omega)
+      · exact .inr (by omega)
+
+theorem slow_loop_tmo {sys : Sys} {comp snap : List Nat} {s0 : St} (c : CompCtx sys comp snap s0) {b : Asg}
+    (hb : Above sys comp s0 b) {q : Nat} (hq : q ∈ comp) (hqi : opOf sys q = .inter) :
+    ∀ (fuel : Nat) (x : St), SlowInv sys comp s0 x b → Bounded sys x →
+      comp.length * (mentioned sys + 1) < pot sys comp x + fuel →
+      (slowLoop sys comp snap fuel x).timeout = x.timeout ∧ Bounded sys (slowLoop sys comp snap fuel x) := by
+  intro fuel
+  induction fuel with
+  | zero =>
+    intro x _ _ hf
+    have := pot_le sys comp x
+    omega
+  | succ fuel ih =>
+    intro x I hB hf
+    have P := slow_pass c hb hq hqi comp (fun _ h => h) x false I
+    obtain ⟨hB1, hp1, hs1⟩ := slow_pass_pot c hb hq hqi comp (fun _ h => h) x false I hB
+    simp only [slowLoop]
+    generalize comp.foldl (slowNode sys snap) (x, false) = r at P hB1 hp1 hs1
+    split
+    · rename_i hd
+      have hgain : pot sys comp x + 1 ≤ pot sys comp r.1 := by
+        rcases hs1 hd with h | h
+        · cases h
+        · exact h
+      obtain ⟨h1, h2⟩ := ih r.1 P.inv hB1 (by omega)
+      exact ⟨by rw [h1, P.tmo], h2⟩
+    · exact ⟨P.tmo, hB1⟩
+
 theorem slow_stepOk {sys : Sys} {comp snap : List Nat} {s : St} (c : CompCtx sys comp snap s)
-    {q : Nat} (hq : q ∈ comp) (hqi : opOf sys q = .inter) (fuel : Nat) :
+    {q : Nat} (hq : q ∈ comp) (hqi : opOf sys q = .inter) (fuel : Nat)
+    (hf : comp.length * (mentioned sys + 1) < fuel + 1) :
     StepOk sys comp snap s (slowLoop sys comp snap (fuel + 1) s) := by
   have hb : Above sys comp s (fun _ _ => True) := ⟨fun _ _ _ _ _ => trivial, fun _ _ _ _ _ => trivial,
     fun _ _ _ _ _ _ _ => trivial⟩
   have L := slow_loop c hb hq hqi (fuel + 1) s (slowInv_init c _ hb)
   obtain ⟨extra, h1, h2⟩ := L.err
-  refine ⟨L.inv.len, L.inv.sorted, L.inv.frame, ⟨extra, h1, h2⟩, ?_, L.tmo⟩
+  have hT := fun hB => slow_loop_tmo c hb hq hqi (fuel + 1) s (slowInv_init c _ hb) hB (by omega)
+  refine ⟨L.inv.len, L.inv.sorted, L.inv.frame, ⟨extra, h1, h2⟩, ?_, L.tmo, fun hB => (hT hB).2,
+    fun hB h => by rw [(hT hB).1]; exact h⟩
   rintro ⟨v, hv, ho⟩
   exact slow_offend c hq hqi fuel ⟨v, hv, ho.1⟩
 
